@@ -404,7 +404,9 @@ def connected_components(edges, min_len=1, nodes=None, engine=None):
         # aren't discarded (as they aren't adjacent to anything)
         if min_len <= 1:
             graph.add_nodes_from(nodes)
-        return [list(i) for i in nx.connected_components(graph)]
+        # a set has no order: return the nodes of every component in
+        # increasing order, as the scipy engine does
+        return [sorted(i) for i in nx.connected_components(graph)]
 
     def components_csgraph():
         """
